@@ -512,6 +512,53 @@ def sample_view(case, ctx):
     return v
 
 
+def conformance(seed, tier, k):
+    """Simulated vs. real execution on faulted inputs: exit status (and, at one core, all files)."""
+    import sys
+    from concurrent.futures import ThreadPoolExecutor
+
+    from sim import realrun
+
+    src = next(p for p in sys.path if "cutadapt-verif-src" in p)
+    todo = []
+    for i in range(k):
+        rng = engine.case_rng(seed, "C12conf", i)
+        case = generate_indexed(seed, 10**9 + i, tier, rng)
+        files = engine.gen_files(case)
+        ctx = engine.Ctx(case)
+        s1 = C.run_serial(case, ctx, files, name="serial")
+        sn = C.run_parallel(case, ctx, files, name="par")
+        if sn.outcome != "finished":
+            continue
+        todo.append((i, case, files, s1, sn))
+
+    def one(t):
+        i, case, files, s1, sn = t
+        inputs = set(gen.input_paths(case))
+        r1 = realrun.run_real(gen.build_argv(case, cores=1), files, src, timeout=60)
+        rn = realrun.run_real(gen.build_argv(case, cores=case["knobs"]["workers"]), files, src, timeout=60)
+        d1 = realrun.compare(s1, r1, inputs)
+        dn = []
+        if rn.hung:
+            dn.append("real multi-core run timed out (hang) where the simulation finished")
+        elif (rn.exit == 0) != (sn.exit == 0):
+            dn.append(f"exit status sim={sn.exit} real={rn.exit}; real stderr tail {rn.stderr[-300:]!r}")
+        return i, case["faults"], d1, dn
+
+    a1 = an = 0
+    problems = []
+    with ThreadPoolExecutor(8) as ex:
+        for i, faults, d1, dn in ex.map(one, todo):
+            a1 += not d1
+            an += not dn
+            if d1:
+                problems.append(f"case {i} {faults} --cores 1: {d1}")
+            if dn:
+                problems.append(f"case {i} {faults} --cores N: {dn}")
+    return {"sim_vs_real_cases": len(todo), "sim_vs_real_agree_cores_1": a1, "sim_vs_real_agree_exit_cores_N": an,
+            "sim_vs_real_disagreements": problems[:5]}, problems
+
+
 def main(seed, tier, args):
     import sys
 
@@ -524,7 +571,14 @@ def main(seed, tier, args):
     ex = {"enumerated_bases": len(bases), "enumerated_single_fault_cases": n_enum,
           "exhaustive_over": "fault position (every truncation offset, every record index x corruption kind) for the enumerated bases; schedules are sampled",
           "enumerated_base_layouts": [[b["input"]["layout"], b["input"]["containers"], b["input"]["members"], len(b["records"])] for b in bases]}
+    conf, problems = conformance(seed, tier, 10 if tier == "quick" else 150)
+    ex.update(conf)
     rc, ev = engine.run_batch(mod, seed, tier, n, budget, extra_evidence=ex)
+    if problems:
+        for p_ in problems[:5]:
+            print("HARNESS-ERROR: simulated and real execution disagree:", p_[:600], file=sys.stderr)
+        if rc == 0:
+            rc = 2
     c = ev["coverage"]
     print(f"C12 {tier}: {c['evaluations']} cases judged ({n_enum} enumerated over {len(bases)} bases), {c['distinct_nontrivial']} distinct non-trivial, "
           f"faults {c['fault_kinds_fired']}, discards {c['discards_by_reason']}, skipped {c['cases_skipped_for_wall_budget']}, wall {ev['wall_s']}s")
